@@ -12,9 +12,11 @@ package main
 //   file   : the bytes are written to a temporary file; obiformats.ReadSequencesFromFile(path)
 //   xzlib  : the ulikunitz/xz reader alone on the bytes (no obitools code): how the library itself ends
 //            the stream — delimits the known finding "xz-clean-eof-on-truncation"
+//   expand : obiconvert.ExpandListOfFiles(false, args...) (in-process): the files a command given these arguments would read
+//   http   : obiformats.ReadSequencesFromFile(URL of a local server which hands the bytes over, possibly fewer than announced)
 //   chunk  : Buf(reader) -> ReadSeqFileChunk(source, r, make([]byte,B), EndOfLastFastaEntry)
 //            with a small B: chunks delivered
-// reader/file/chunk run in one child process per case (the same binary, `vh c17child`): a
+// reader/file/http/chunk run in one child process per case (the same binary, `vh c17child`): a
 // log.Fatalf anywhere in the library terminates the child with status 1 = outcome "fatal".
 
 import (
@@ -25,14 +27,18 @@ import (
 	"errors"
 	"fmt"
 	"io"
+	"net/http"
+	"net/http/httptest"
 	"os"
 	"os/exec"
+	"strconv"
 	"strings"
 	"sync"
 	"time"
 
 	"git.metabarcoding.org/obitools/obitools4/obitools4/pkg/obiformats"
 	"git.metabarcoding.org/obitools/obitools4/obitools4/pkg/obiiter"
+	"git.metabarcoding.org/obitools/obitools4/obitools4/pkg/obitools/obiconvert"
 	"github.com/ulikunitz/xz"
 )
 
@@ -43,25 +49,34 @@ type c17case struct {
 	Flip    int    `json:"flip"`
 	FaultAt int    `json:"fault_at"`
 	B       int    `json:"b"`
-	Step    int    `json:"step"`  // read schedule: at most Step bytes per Read call (0: as many as asked)
-	Eager   bool   `json:"eager"` // the final error (io.EOF or the injected fault) comes together with the last bytes (n > 0)
+	Step    int    `json:"step"`   // read schedule: at most Step bytes per Read call (0: as many as asked)
+	Eager   bool   `json:"eager"`  // the final error (io.EOF or the injected fault) comes together with the last bytes (n > 0)
 	NoData  bool   `json:"nodata"` // probe: only the number of decoded bytes is sent back (nrec), not the bytes
+	// round 3: which error the raw reader ends with after fault_at bytes: "" = a custom error, "unexpected" =
+	// io.ErrUnexpectedEOF itself (what net/http answers for a body shorter than its Content-Length), "wrapped_eof" = an
+	// error which wraps io.EOF (errors.Is(err, io.EOF) but err != io.EOF). (A reader answering (0, nil) for ever is not an error
+	// in the sense of the property: bufio hands the (0, nil) over and io.ReadFull spins, as it does on any such reader.)
+	FaultKind string `json:"fault_kind,omitempty"`
+	// mode expand: the arguments handed to obiconvert.ExpandListOfFiles
+	Args []string `json:"args,omitempty"`
 }
 
 type c17obs struct {
-	Kind    string `json:"kind"`           // ok | fatal | timeout | panic | crash
-	Open    string `json:"open,omitempty"` // probe: ok | nocontent | error
-	Fin     string `json:"fin,omitempty"`  // probe: eof | unexpected | injected | other
-	FinText string `json:"fin_text,omitempty"`
-	Data    string `json:"data,omitempty"`   // probe: decoded bytes (base64)
-	NRec    int    `json:"nrec"`             // reader/file: records delivered
-	Ids     string `json:"ids,omitempty"`    // reader/file: id:length of every record, in order
-	NChunks int    `json:"nchunks"`          // chunk: chunks delivered
-	Chunks  string `json:"chunks,omitempty"` // chunk: concatenation of the chunks (base64)
-	Err     string `json:"err,omitempty"`
+	Kind    string   `json:"kind"`           // ok | fatal | timeout | panic | crash
+	Open    string   `json:"open,omitempty"` // probe: ok | nocontent | error
+	Fin     string   `json:"fin,omitempty"`  // probe: eof | unexpected | injected | other
+	FinText string   `json:"fin_text,omitempty"`
+	Data    string   `json:"data,omitempty"`   // probe: decoded bytes (base64)
+	NRec    int      `json:"nrec"`             // reader/file: records delivered
+	Ids     string   `json:"ids,omitempty"`    // reader/file: id:length of every record, in order
+	NChunks int      `json:"nchunks"`          // chunk: chunks delivered
+	Chunks  string   `json:"chunks,omitempty"` // chunk: concatenation of the chunks (base64)
+	Err     string   `json:"err,omitempty"`
+	Files   []string `json:"files,omitempty"` // expand: the list of files the command would read
 }
 
 var errC17Injected = errors.New("c17: injected read fault")
+var errC17WrappedEOF = fmt.Errorf("c17: injected read fault wrapping %w", io.EOF)
 
 // c17reader delivers data[:limit] then fails with err for ever (io.EOF when no fault is injected);
 // step > 0: at most step bytes per call; eager: the error is returned together with the last bytes.
@@ -113,7 +128,14 @@ func c17source(c c17case) (io.Reader, error) {
 		if c.FaultAt < len(b) {
 			r.data = b[:c.FaultAt]
 		}
-		r.err = errC17Injected
+		switch c.FaultKind {
+		case "unexpected":
+			r.err = io.ErrUnexpectedEOF
+		case "wrapped_eof":
+			r.err = errC17WrappedEOF
+		default:
+			r.err = errC17Injected
+		}
 	}
 	return r, nil
 }
@@ -180,7 +202,7 @@ func c17probe(c c17case) (o c17obs) {
 		// the decompressor's io.ErrUnexpectedEOF, as it is (unrepaired tree) or renamed
 		// ErrTruncatedInput by xopen's wrapper (repaired tree)
 		o.Fin = "unexpected"
-	case errors.Is(fin, errC17Injected):
+	case errors.Is(fin, errC17Injected) || fin == errC17WrappedEOF:
 		o.Fin = "injected"
 	default:
 		o.Fin = "other"
@@ -238,6 +260,33 @@ func c17fileRoute(c c17case) c17obs {
 	return c17consume(obiformats.ReadSequencesFromFile(c.Path, obiformats.OptionsParallelWorkers(2)))
 }
 
+// round 3: the input is an URL (XReader's http branch): a local server hands the (cut / flipped) bytes over; fault kinds:
+// "short_body" = the response announces the length of the COMPLETE file and carries the first `cut` bytes only (the client's
+// body reader ends with io.ErrUnexpectedEOF), "http404" = status 404
+func c17httpRoute(c c17case) c17obs {
+	b, err := c17bytes(c)
+	if err != nil {
+		return c17obs{Kind: "crash", Err: err.Error()}
+	}
+	full, err := os.ReadFile(c.Path)
+	if err != nil {
+		return c17obs{Kind: "crash", Err: err.Error()}
+	}
+	srv := httptest.NewServer(http.HandlerFunc(func(w http.ResponseWriter, r *http.Request) {
+		w.Header().Set("Content-Type", "application/octet-stream")
+		switch c.FaultKind {
+		case "http404":
+			http.Error(w, "not found", http.StatusNotFound)
+			return
+		case "short_body":
+			w.Header().Set("Content-Length", strconv.Itoa(len(full)))
+		}
+		w.Write(b)
+	}))
+	defer srv.Close()
+	return c17consume(obiformats.ReadSequencesFromFile(srv.URL+"/input.dat", obiformats.OptionsParallelWorkers(2)))
+}
+
 func c17chunkRoute(c c17case) c17obs {
 	src, err := c17source(c)
 	if err != nil {
@@ -263,8 +312,24 @@ func c17chunkRoute(c c17case) c17obs {
 	return c17obs{Kind: "ok", NChunks: n, Chunks: base64.StdEncoding.EncodeToString(all.Bytes())}
 }
 
+// round 3: the list of input files of a command (file and directory arguments)
+func c17expand(c c17case) (o c17obs) {
+	defer func() {
+		if r := recover(); r != nil {
+			o = c17obs{Kind: "panic", Err: fmt.Sprint(r)}
+		}
+	}()
+	l, err := obiconvert.ExpandListOfFiles(false, c.Args...)
+	if err != nil {
+		return c17obs{Kind: "fatal", Err: err.Error()}
+	}
+	return c17obs{Kind: "ok", Files: l}
+}
+
 func c17one(c c17case) c17obs {
 	switch c.Mode {
+	case "expand":
+		return c17expand(c)
 	case "probe":
 		return c17probe(c)
 	case "xzlib":
@@ -275,6 +340,8 @@ func c17one(c c17case) c17obs {
 		return c17fileRoute(c)
 	case "chunk":
 		return c17chunkRoute(c)
+	case "http":
+		return c17httpRoute(c)
 	}
 	return c17obs{Kind: "crash", Err: "unknown mode"}
 }
@@ -381,7 +448,7 @@ func init() {
 		var wg sync.WaitGroup
 		sem := make(chan struct{}, 12)
 		for i := range cases {
-			if cases[i].Mode == "probe" || cases[i].Mode == "xzlib" {
+			if cases[i].Mode == "probe" || cases[i].Mode == "xzlib" || cases[i].Mode == "expand" {
 				obs[i] = c17one(cases[i])
 				continue
 			}
